@@ -425,15 +425,25 @@ func (c *compiler) IndexNode(node *ast.IndexNode) {
 
 func (c *compiler) SliceNode(node *ast.SliceNode) {
 	c.compile(node.Node)
-	if node.To != nil {
-		c.compile(node.To)
-	} else {
+	if node.To == nil {
+		// The upper bound is the length of the sliced value (OpLen reads
+		// it from the top of the stack), then comes the lower bound.
 		c.emit(OpLen)
-	}
-	if node.From != nil {
-		c.compile(node.From)
+		if node.From != nil {
+			c.compile(node.From)
+		} else {
+			c.emitPush(0)
+		}
 	} else {
-		c.emitPush(0)
+		// Both bounds are expressions: evaluate them from left to right,
+		// then swap them, as OpSlice pops the lower bound first.
+		if node.From != nil {
+			c.compile(node.From)
+		} else {
+			c.emitPush(0)
+		}
+		c.compile(node.To)
+		c.emit(OpRot)
 	}
 	c.emit(OpSlice)
 }
